@@ -166,7 +166,9 @@ def playback(kdir, target_dir, h, um):
         return {"reproduced": False, "note": "timeout in native playback", "test": test_src}
     out = q.stdout + q.stderr
     pan = re.findall(r"panicked at ([^\n]*)\n([^\n]*)", out)
-    failed = ("test result: FAILED" in out) or bool(pan)
+    # a panic inside the playback driver itself ("Not enough det vals found") is not a reproduction
+    pan = [(a, b) for a, b in pan if "concrete_playback.rs" not in a]
+    failed = bool(pan)
     return {"reproduced": bool(failed), "test": test_src, "panic": [f"{a} {b}".strip() for a, b in pan][:3],
             "cmd": " ".join(cmd2), "tail": out[-1200:]}
 
@@ -249,8 +251,16 @@ def run_kani_group(root, plan, names, snap, sd, prop, tier):
                    "status": hr["verdict"], "cmd": hr["cmd"]}
             r["cmd"] = hr["cmd"]
             r["verification_s"] += hr["time_s"] or 0.0
-            real_fail = [c for c in hr["failed"] if "unwinding assertion" not in c["desc"]]
+            # a failed check that only says "Kani cannot model this" (foreign function, inline assembly, unsupported feature) is
+            # a tool limit: once any such check fails, nothing else in the harness is trusted either (undecided, never an alarm)
+            unsupported = [c for c in hr["failed"] if re.search(r"not currently supported by Kani|is not supported|unsupported|inline assembly", c["desc"], re.I)]
+            real_fail = [c for c in hr["failed"] if "unwinding assertion" not in c["desc"] and c not in unsupported]
             unwind_fail = [c for c in hr["failed"] if "unwinding assertion" in c["desc"]]
+            if unsupported:
+                r["undecided"].append({"reason": "kani-unsupported-construct", "messages": [h["name"] + ": " + unsupported[0]["desc"][:300]]})
+                rec["status"] = "unsupported"
+                r["harnesses"].append(rec)
+                continue
             if hr["timed_out"]:
                 r["undecided"].append({"reason": "kani-timeout", "messages": [f"{h['name']} after {h['timeout']} s"]})
                 rec["status"] = "timeout"
